@@ -86,6 +86,8 @@ func execC06(in []int64) []int64 {
 	return out
 }
 
+var c06LargeOps = largeOps{opAdd: c06Push, opRem: c06Pop, opPeek: c06Peek, opSearch: c06Search, opSize: c06Size}
+
 // the exhaustive alphabet: index -> (op, arg)
 var c06Alpha = [][2]int{
 	{c06Push, 1}, {c06Push, 2}, {c06Push, 3},
@@ -134,7 +136,7 @@ func c06Emit(g *Gen, stream string, cfg, t int, ops [][2]int) {
 	} else {
 		g.Count("impl.linked")
 	}
-	g.Count(fmt.Sprintf("len.%03d", len(ops)/50*50))
+	g.Count(largeLenBucket(len(ops)))
 	if nt {
 		g.Count("empty+refill")
 	}
@@ -179,11 +181,11 @@ func genC06(g *Gen) {
 	})
 	g.Exhaustive("exhaustive")
 
-	// 1b. thorough only: deeper, over {Push 1, Push 2, Pop, Peek}, every
-	// sequence of length 7, 8 and 9 (shorter ones are covered above)
-	if !g.Quick() {
+	// 1b. deeper, over {Push 1, Push 2, Pop, Peek}: every sequence of length 6 to 8
+	// (quick) / 7 to 9 (thorough; length 6 is covered above)
+	{
 		deep := [][2]int{{c06Push, 1}, {c06Push, 2}, {c06Pop, 0}, {c06Peek, 0}}
-		for n := 7; n <= 9; n++ {
+		for n := g.Pick(6, 7); n <= g.Pick(8, 9); n++ {
 			seqsExact(len(deep), n, func(seq []int) {
 				ops := make([][2]int, len(seq))
 				for i, v := range seq {
@@ -240,6 +242,33 @@ func genC06(g *Gen) {
 			}
 		}
 		c06Emit(g, "random", c%2, val(), ops)
+	}
+
+	// 2b. large: structured long histories (c05_large.go) for both implementations:
+	// bulk grow-then-pop up to 1030 (thorough: 4000) elements, saw-tooth across the
+	// powers of two up to 1024 (4096), push/pop windows at depth 1..4
+	for cfg := 0; cfg <= 1; cfg++ {
+		cfg := cfg
+		limit := 0
+		if cfg == 1 {
+			// the linked stack's model is cubic in the size of a bulk history
+			limit = g.Pick(300, 1030)
+		}
+		largePlans(g.Quick(), limit, func(name string, build func(b *largeBuilder)) {
+			var b *largeBuilder
+			if cfg == 0 {
+				b = newLargeBuilder(false, c06LargeOps, nil, 1)
+			} else {
+				b = newLargeBuilder(false, c06LargeOps, []int{1}, 2)
+			}
+			build(b)
+			c06Emit(g, "large", cfg, 1, b.ops)
+			g.Count("large." + name)
+			g.Count(largeBucket(b.maxHeld))
+			if b.removed >= 128 {
+				g.Count("large.removals>=128")
+			}
+		})
 	}
 
 	// 3. "malformed" use: reads and pops on an empty / emptied stack, extreme
@@ -310,8 +339,11 @@ func init() {
 		ID: "C06",
 		Rule: "exhaustive: every op sequence up to length 5 (quick) / 6 (thorough) over {Push 1|2|3, Pop, Peek, Search 1|2|3, Size} " +
 			"for stack.New and for stack.NewLinked(1), result of every op observed, then Size + pop-all + Pop/Size/Peek on the emptied stack; " +
-			"thorough adds every sequence of length 7 to 9 over {Push 1|2, Pop, Peek}; " +
-			"random: length-400 histories in fill / over-pop / churn phases over values 0..5; malformed: reads and pops on empty and emptied stacks with extreme values. " +
+			"exhaustive-deep: every sequence of length 6 to 8 (thorough: 7 to 9) over {Push 1|2, Pop, Peek}; " +
+			"random: length-400 histories in fill / over-pop / churn phases over values 0..5; " +
+			"large: structured long histories over distinct increasing values for both implementations, Peek/Size/Search observed at several points and a pop-all at the end: " +
+			"bulk grow to N in {40,130,300,1030} (thorough also 2050, 4000; linked stack: N <= 300 and saw-tooth up to 256 in the quick tier, its node-heap model being cubic in N) then pop 3N/4+2, N or N+3; saw-tooth p+1 -> p/4-1 over the powers of two p up to 1024 (4096) with thrashing across each capacity boundary; " +
+			"push/pop windows at depth 1..4 repeated 130, 300, 1100 (5000) times; malformed: reads and pops on empty and emptied stacks with extreme values. " +
 			"Non-trivial = the history pops the stack empty (from a non-empty state) and pushes again afterwards.",
 		Exec:     execC06,
 		Gen:      genC06,
